@@ -61,6 +61,7 @@ def check(P, rep):
                   'MinimumRotationDelay is set from the constructor parameter', entry_id(gc))
     else:
         rep.floor('gateway constructor', 0, 1)
+    require_overflow_checks(P, rep, 'C09.R1')
     n = 0
     for cn, en in P.all_entries():
         if cn != CN:
